@@ -141,7 +141,8 @@ def execute(scn, codegen='json', extra_parser=None, around=None):
     cg = doubles.CodegenW(tr, pipeline.make_codegen(codegen), scn['codegen_script'])
     wr = doubles.WriterD(tr, scn['writer'])
     comp = MibCompiler(parser, cg, wr)
-    srcs = [doubles.SourceD(tr, 's%d' % i, t) for i, t in enumerate(source_tables(scn))]
+    srcs = [doubles.SourceD(tr, 's%d' % i, t, alias=scn.get('source_alias'))
+            for i, t in enumerate(source_tables(scn))]
     base_tab = dict((b, base_text(b)) for b in BASE)
     for b in scn.get('base_extra', []):
         base_tab[b] = base_text(b)
